@@ -118,7 +118,9 @@ def main():
         for c in checks:
             t0 = time.time()
             rc, out = sh('./check %s --tier %s --repo %s' % (c, tier, wt), cwd=VERIF, timeout=7200)
-            lines = [l for l in out.splitlines() if l.startswith(('VIOLATION', 'violation key', 'KNOWN-FINDING', 'INCONCLUSIVE', c + ' '))]
+            lines = [l for l in out.splitlines() if l.startswith(('violation key', c + ' '))] + \
+                    [l for l in out.splitlines() if l.startswith(('VIOLATION', 'INCONCLUSIVE'))] + \
+                    [l for l in out.splitlines() if l.startswith('KNOWN-FINDING')]
             meta['checks'][c] = dict(rc=rc, wall_s=round(time.time() - t0, 1), tier=tier,
                                      lines=[l[:400] for l in lines][:12])
             if rc not in (0, 1):
